@@ -52,6 +52,11 @@ def _(mul, a, b, c):
     return [a >= 0, b <= c], mul(a, b) <= mul(a, c)
 
 
+@lemma('mul_mono_l')
+def _(mul, a, b, c):
+    return [c >= 0, a <= b], mul(a, c) <= mul(b, c)
+
+
 @lemma('mul_nonneg')
 def _(mul, a, b):
     return [a >= 0, b >= 0], mul(a, b) >= 0
@@ -127,6 +132,22 @@ def _(mul, t, w, gq, g, x):
     """g = fl(t / fl(2-t)) is at most 1 (+ulps):  g*x <= x*(1+4e) + 1e-9"""
     return [t > 0, t <= 1, up(w, 2 - t), mul(gq, w) == t, g >= 0, g <= gq * (1 + e_) + FP.ETA,
             x >= 0, x <= 2 ** 31], mul(g, x) <= x * (1 + 4 * e_) + z3.RealVal('1/1000000000')
+
+
+@lemma('split_end')
+def _(mul, k, qk, inv, L, ss):
+    """inv = fl(1/k), ss = fl(inv*L):  |k*ss - L| <= 2^-18   (k, L <= 2^31)"""
+    return [k >= 1, k <= 2 ** 31, L >= 0, L <= 2 ** 31, mul(qk, k) == 1, up(inv, qk),
+            z3.Or(z3.And(L == 0, ss == 0), up(ss, mul(inv, L)))], \
+        z3.And(mul(k, ss) - L <= z3.RealVal(Fraction(1, 2 ** 18)), L - mul(k, ss) <= z3.RealVal(Fraction(1, 2 ** 18)))
+
+
+@lemma('split_size_bounds')
+def _(mul, k, qk, inv, L, ss):
+    """0 <= ss <= L*(1+4e)/k ... in product form:  0 <= ss and k*ss <= 2^32"""
+    return [k >= 1, k <= 2 ** 31, L >= 0, L <= 2 ** 31, mul(qk, k) == 1, up(inv, qk),
+            z3.Or(z3.And(L == 0, ss == 0), up(ss, mul(inv, L)))], \
+        z3.And(ss >= 0, ss <= L * (1 + 4 * e_), inv > 0, inv <= 1 + e_)
 
 
 # ------------------------------------------------------- similarity premises
